@@ -48,3 +48,30 @@ __CPROVER_requires(IORA_TRUE) __CPROVER_assigns()
 __CPROVER_ensures(__CPROVER_return_value == ((c >= 65 && c <= 90) ? (char)(c + 32) : (char)c))
 ;
 void h_lower(void) { unsigned char c; CaseInsensitiveCompare_asciiLower(c); IORA_CANARY("h_lower: returns"); }
+
+#ifdef IORA_SEARCH
+/* BOUNDED stand-in for full exactness (values of at most 10 bytes): the real function against an independent reference that splits at commas,
+ * trims SP/HTAB on both sides and compares ASCII case-insensitively; precedence close > keep-alive > version default. */
+static bool ref_ci_eq(const uint8_t *p, size_t n, const char *lit, size_t len)
+{ if (n != len) return 0; for (size_t k = 0; k < 10; k++) if (k < n) { uint8_t c = p[k]; if (c >= 65 && c <= 90) c = (uint8_t)(c + 32); if (c != (uint8_t)lit[k]) return 0; } return 1; }
+void h_search(void)
+{
+  uint8_t IN[11]; size_t IN_N = nondet_size_t(); uint8_t VERS[4]; _Bool HASCONN = nondet_bool();
+  IORA_NONDET_BYTES(IN, 11); IORA_NONDET_BYTES(VERS, 4);
+  __CPROVER_assume(IN_N <= 10);
+  IORA_TRUE = 1;
+  RResponse resp; resp.headers.has_connection = HASCONN; resp.headers.connection.second.p = (const char *)IN; resp.headers.connection.second.n = IN_N;
+  resp.httpVersion.p = (const char *)VERS; resp.httpVersion.n = 3;
+  HttpClient c0;
+  bool got = HttpClient_responseRequestsClose(&c0, resp);
+  bool anyClose = 0, anyKa = 0; size_t s = 0;
+  for (size_t i = 0; i <= 10; i++) if (i <= IN_N && (i == IN_N || IN[i] == 44)) {      /* list element [s, i) */
+    size_t a = s, b = i; while (a < b && (IN[a] == 32 || IN[a] == 9)) a++; while (b > a && (IN[b - 1] == 32 || IN[b - 1] == 9)) b--;
+    if (ref_ci_eq(IN + a, b - a, "close", 5)) anyClose = 1;
+    if (ref_ci_eq(IN + a, b - a, "keep-alive", 10)) anyKa = 1;
+    s = i + 1; }
+  bool v10 = VERS[0] == 49 && VERS[1] == 46 && VERS[2] == 48;
+  bool want = HASCONN && anyClose ? 1 : (HASCONN && anyKa ? 0 : v10);
+  __CPROVER_assert(got == want, "X1 responseRequestsClose equals the reference on the token list");
+}
+#endif
